@@ -22,6 +22,14 @@ From BB Require Import Filter PySrcFilter PySrcFilterFacts.
 Theorem C12_source_compute_attractors_symbolic : forall (N : net) (seeds_only : bool) (motifs : list space) (cands : list state), py_compute_attractors_symbolic N seeds_only motifs cands = Some (compute_attractors_filter N seeds_only motifs cands).
 Proof. exact py_compute_attractors_symbolic_spec. Qed.
 
+(* C12 / C01 for the SOURCE TEXT of the filter: given covering, duplicate-free candidates inside the node, the seeds returned by the generated compute_attractors_symbolic are one-to-one with the node's own attractors and the i-th set is exactly the reachable set (= the attractor) of the i-th seed *)
+Theorem C12_source_text_filter_exact : forall (N : net) (S : space) (motifs : list space) (cands seeds : list state) (sets : list (list state)), trap_space N S -> (forall M : space, In M motifs -> trap_space N M /\ subspace M S = true) -> NoDup cands -> (forall c : state, In c cands -> in_space c S = true) -> covers N S motifs cands -> py_compute_attractors_symbolic N false motifs cands = Some (seeds, Some sets) -> one_to_one N S motifs seeds /\ length sets = length seeds /\ (forall (i : nat) (s : state) (X : list state), nth_error seeds i = Some s -> nth_error sets i = Some X -> forall t : state, In t X <-> reach N s t).
+Proof. exact py_compute_attractors_symbolic_exact. Qed.
+
+(* ... and with seeds_only=True (the unchecked-last-candidate shortcut included) the seeds are still one-to-one *)
+Theorem C12_source_text_filter_seeds_only : forall (N : net) (S : space) (motifs : list space) (cands seeds : list state) (osets : option (list (list state))), trap_space N S -> (forall M : space, In M motifs -> trap_space N M /\ subspace M S = true) -> NoDup cands -> (forall c : state, In c cands -> in_space c S = true) -> covers N S motifs cands -> py_compute_attractors_symbolic N true motifs cands = Some (seeds, osets) -> one_to_one N S motifs seeds.
+Proof. exact py_compute_attractors_symbolic_seeds_only. Qed.
+
 Theorem C12_check_sets_ok : forall (N : net) (S : space) (motifs : list space) (seeds : list state) (sets : list (list state)), check_sets (node_attractors_b N S motifs) seeds sets = VOk -> length sets = length seeds /\ (forall (i : nat) (s : state) (X : list state), nth_error seeds i = Some s -> nth_error sets i = Some X -> (forall t : state, In t X <-> reach N s t) /\ in_attractor N s).
 Proof. exact check_sets_ok. Qed.
 
@@ -63,6 +71,8 @@ Theorem C12_node_sets_exact : forall (fuel : nat) (N : net) (S : space) (avoid :
 Proof. exact node_seeds_exact. Qed.
 
 Print Assumptions C12_source_compute_attractors_symbolic.
+Print Assumptions C12_source_text_filter_exact.
+Print Assumptions C12_source_text_filter_seeds_only.
 Print Assumptions C12_check_sets_ok.
 Print Assumptions C12_filter_exact.
 Print Assumptions C12_reach_list_sound.
